@@ -178,3 +178,65 @@ Theorem C07_callps_retps_transparent :
       /\ (forall a, RAMB <= a -> (a < S \/ S + 4 <= a) -> (a < P \/ P + 12 <= a) -> ramb m2 a = ramb m a).
 Proof. exact callps_retps_transparent. Qed.
 Print Assumptions C07_callps_retps_transparent.
+
+(* the same through a handler control block WITH the R flag (register save area): interrupt entry saves AP, FP and
+   r0-r8 in the interrupted process's control block and uses r0-r2 and FP as scratch, RETPS reloads them; the
+   block-move lists of both blocks are empty (lists with entries: correspondence + mon_c07).  Registers hold 32-bit
+   values.  The R bit of the PSW itself is not claimed (it is set from the handler block's PSW). *)
+From Dmd Require Import Proofs.InterruptProofsR.
+Theorem C07_interrupt_retps_transparent_R_block :
+  forall ir v m,
+    iopcode ir = 12488 ->
+    bus_wf (mbus m) -> 0 <= v -> in_rom_w (140 + 4 * v) ->
+    let N := romw m (140 + 4 * v) in
+    let P := R m R_PCBP in
+    let S := R m R_ISP in
+    pcb_in_ram N -> in_ram_w (N + 64) -> ldw m (N + 64) = 0 ->
+    pcb_in_ram P -> in_ram_w (P + 64) -> ldw m (P + 64) = 0 ->
+    in_ram_w S -> S + 4 < 4294967296 ->
+    (P + 68 <= N \/ N + 68 <= P) -> (S + 4 <= P \/ P + 68 <= S) -> (S + 4 <= N \/ N + 68 <= S) ->
+    let H := ldw m N in
+    0 <= H -> Z.testbit H 8 = true -> Z.testbit H 7 = false -> Z.testbit H 11 = false -> Z.testbit H 12 = false ->
+    Z.testbit (PSW m) 7 = false ->
+    (forall i, 0 <= i <= 15 -> 0 <= R m i < 4294967296) ->
+    exists m1 m2,
+      on_interrupt v m = Ok tt m1 /\ exec ir m1 = Ok 0 m2
+      /\ R m2 R_PC = R m R_PC /\ R m2 R_SP = R m R_SP /\ R m2 R_PCBP = P /\ R m2 R_ISP = S
+      /\ (forall i, 0 <= i <= 10 -> R m2 i = R m i)
+      /\ (forall k, In k [21; 20; 19; 18; 16; 15; 14; 13; 12; 11; 10; 9; 7] -> Z.testbit (PSW m2) k = Z.testbit (PSW m) k)
+      /\ (forall a, RAMB <= a -> (a < S \/ S + 4 <= a) -> (a < P \/ P + 64 <= a) -> ramb m2 a = ramb m a).
+Proof. exact interrupt_retps_transparent_R. Qed.
+Print Assumptions C07_interrupt_retps_transparent_R_block.
+
+(* what entry through an R block stores, and what RETPS through an R block loads *)
+Theorem C07_R_block_save_and_restore :
+  (forall v m N P S H,
+     bus_wf (mbus m) -> 0 <= v -> in_rom_w (140 + 4 * v) ->
+     romw m (140 + 4 * v) = N -> R m R_PCBP = P -> R m R_ISP = S -> ldw m N = H ->
+     pcb_in_ram N -> in_ram_w (N + 64) -> ldw m (N + 64) = 0 ->
+     pcb_in_ram P -> in_ram_w S -> S + 4 < 4294967296 ->
+     (P + 64 <= N \/ N + 68 <= P) -> (S + 4 <= P \/ P + 64 <= S) -> (S + 4 <= N \/ N + 68 <= S) ->
+     Z.testbit H 8 = true -> Z.testbit H 7 = false ->
+     exists m1, on_interrupt v m = Ok tt m1
+       /\ bus_wf (mbus m1)
+       /\ R m1 R_ISP = S + 4 /\ R m1 R_PCBP = N /\ PSW m1 = handler_psw H
+       /\ R m1 R_PC = ldw m (N + 4) /\ R m1 R_SP = ldw m (N + 8)
+       /\ ldw m1 S = w32 P /\ ldw m1 P = w32 (saved_psw (PSW m) H)
+       /\ ldw m1 (P + 4) = w32 (R m R_PC) /\ ldw m1 (P + 8) = w32 (R m R_SP)
+       /\ ldw m1 (P + 20) = w32 (R m R_AP) /\ ldw m1 (P + 24) = w32 (R m R_FP)
+       /\ (forall k, 0 <= k <= 8 -> ldw m1 (P + 28 + 4 * k) = w32 (R m k))
+       /\ (forall a, RAMB <= a -> (a < S \/ S + 4 <= a) -> (a < P \/ P + 64 <= a) -> ramb m1 a = ramb m a))
+  /\ (forall ir m,
+        iopcode ir = 12488 -> is_kernel m = true -> bus_wf (mbus m) ->
+        4 <= R m R_ISP < 4294967296 -> in_ram_w (R m R_ISP - 4) ->
+        let P := ldw m (R m R_ISP - 4) in
+        pcb_in_ram P -> in_ram_w (P + 64) -> ldw m (P + 64) = 0 ->
+        let Q := ldw m P in
+        Z.testbit Q 8 = true -> Z.testbit Q 7 = false ->
+        exists m', exec ir m = Ok 0 m' /\ mbus m' = mbus m
+          /\ R m' R_ISP = R m R_ISP - 4 /\ R m' R_PCBP = P /\ PSW m' = clr32 Q F_TM
+          /\ R m' R_PC = ldw m (P + 4) /\ R m' R_SP = ldw m (P + 8)
+          /\ R m' R_FP = ldw m (P + 24) /\ R m' R_AP = ldw m (P + 20)
+          /\ (forall k, 0 <= k <= 8 -> R m' k = ldw m (P + 28 + 4 * k))).
+Proof. split; [exact on_interrupt_effect_gen_R | exact retps_effect_R]. Qed.
+Print Assumptions C07_R_block_save_and_restore.
